@@ -132,6 +132,12 @@ Pass(t, v) ==
     [] t.kind = "nhas"  -> v < t.n         \* Not().Contains(...)
     [] OTHER            -> FALSE
 
+\* The abstract value NaNV of a FLOAT leaf stands for NaN: a present, non-zero value that every built-in comparison
+\* rejects (user tests see it like any other value).
+NaNV == 8
+PassN(node, t, v) ==
+  IF node.k = "prim" /\ node.ty = "float" /\ v = NaNV /\ ~t.user THEN FALSE ELSE Pass(t, v)
+
 \* ---- bags ---------------------------------------------------------------
 RangeOf(s) == {s[i] : i \in DOMAIN s}
 BagOf(s) == [x \in RangeOf(s) |-> Cardinality({i \in DOMAIN s : s[i] = x})]
@@ -186,6 +192,23 @@ InitDestPre(node, p) ==
          LET R[i \in 0..Len(node.kids)] ==
                IF i = 0 THEN (Append(p, "$extra") :> Sentinel)
                ELSE InitDestPre(node.kids[i].node, Append(p, node.kids[i].key)) @@ R[i - 1]
+         IN R[Len(node.kids)]
+    [] OTHER -> EmptyF
+
+\* a Parse destination that was used before: pointers allocated AND slices already holding two stale elements.
+\* A present list replaces the slice by a fresh one (no stale element, pointer or field survives); an absent
+\* optional list leaves the old slice alone.
+RECURSIVE InitDestUsed(_, _)
+InitDestUsed(node, p) ==
+  CASE node.k = "pre" -> InitDestUsed(node.kids[1].node, p)
+    [] node.k = "prim"   -> (p :> InitVal(node.ty))
+    [] node.k = "custom" -> (p :> Sentinel)
+    [] node.k = "slice"  -> (p :> 2) @@ InitDestUsed(Elem(node), Append(p, Idx(0))) @@ InitDestUsed(Elem(node), Append(p, Idx(1)))
+    [] node.k = "ptr"    -> (p :> 1) @@ InitDestUsed(Elem(node), Append(p, "*"))
+    [] node.k = "struct" ->
+         LET R[i \in 0..Len(node.kids)] ==
+               IF i = 0 THEN (Append(p, "$extra") :> Sentinel)
+               ELSE InitDestUsed(node.kids[i].node, Append(p, node.kids[i].key)) @@ R[i - 1]
          IN R[Len(node.kids)]
     [] OTHER -> EmptyF
 
